@@ -111,6 +111,12 @@ where
     /// * `wid` - The worker id whose availability changed
     /// * `available` - `true` if the worker is now available, `false` if now busy
     fn on_worker_availability_change(&mut self, _wid: WorkerId, _available: bool) {}
+
+    /// cfg-only: the router's own state as JSON object members (`"av":[..],"inq":[..]`)
+    #[cfg(ractor_verif)]
+    fn verif_state(&self) -> String {
+        String::new()
+    }
 }
 
 // ============================ Macros ======================= //
@@ -301,6 +307,20 @@ where
             self.worker_in_queue[wid] = false;
         }
     }
+
+    #[cfg(ractor_verif)]
+    fn verif_state(&self) -> String {
+        let av: Vec<i64> = self.available_workers.iter().map(|w| *w as i64).collect();
+        let inq: Vec<i64> = (0..self.worker_in_queue.len())
+            .filter(|i| self.worker_in_queue[*i])
+            .map(|i| i as i64)
+            .collect();
+        format!(
+            "\"av\":{},\"inq\":{}",
+            crate::verif::json_list(&av),
+            crate::verif::json_list(&inq)
+        )
+    }
 }
 
 // ============================ Sticky Queuer routing ======================= //
@@ -425,6 +445,20 @@ where
             self.worker_in_queue[wid] = false;
         }
     }
+
+    #[cfg(ractor_verif)]
+    fn verif_state(&self) -> String {
+        let av: Vec<i64> = self.available_workers.iter().map(|w| *w as i64).collect();
+        let inq: Vec<i64> = (0..self.worker_in_queue.len())
+            .filter(|i| self.worker_in_queue[*i])
+            .map(|i| i as i64)
+            .collect();
+        format!(
+            "\"av\":{},\"inq\":{}",
+            crate::verif::json_list(&av),
+            crate::verif::json_list(&inq)
+        )
+    }
 }
 
 // ============================ Round-robin routing ======================= //
@@ -505,6 +539,11 @@ where
 
     fn is_factory_queueing(&self) -> bool {
         false
+    }
+
+    #[cfg(ractor_verif)]
+    fn verif_state(&self) -> String {
+        format!("\"last\":{}", self.last_worker)
     }
 }
 
